@@ -165,6 +165,7 @@ func (p *Proc) evalCall(ec *ectx, call *ast.CallExpr) Val {
 	fn, recvExpr := p.calleeOf(ec, call)
 	if fn != nil {
 		if p.droppedFn(fn) {
+			p.mutexOp(ec, fn, recvExpr)
 			return p.zeroResults(fn)
 		}
 		var recv *Val
@@ -1148,4 +1149,50 @@ func recvTypeOf(sig *types.Signature) types.Type {
 		return types.Typ[types.Invalid]
 	}
 	return sig.Recv().Type()
+}
+
+// mutexKey names the mutex a selector x.mu denotes, where x is a pointer to a struct (or a struct
+// reached through one): the pair (object, field). nil if the expression has another shape.
+func (p *Proc) mutexKey(ec *ectx, e ast.Expr) *Term {
+	sel, ok := ast.Unparen(e).(*ast.SelectorExpr)
+	if !ok {
+		return nil
+	}
+	var info *types.Info
+	if ec.info != nil {
+		info = ec.info
+	} else if pk := p.ctx.pkgs[ec.pkg.Path()]; pk != nil {
+		info = pk.TypesInfo
+	}
+	base := p.eval(ec, sel.X)
+	if base.T == nil || base.T.Sort != SInt {
+		return nil
+	}
+	_ = info
+	p.ctx.declare("fun:mu_addr", "(declare-fun mu_addr (Int Str) Int)\n(declare-fun mu_obj (Int) Int)\n(assert (forall ((r!m Int) (f!m Str)) (! (= (mu_obj (mu_addr r!m f!m)) r!m) :pattern ((mu_addr r!m f!m)))))")
+	return T(fmt.Sprintf("(mu_addr %s %s)", base.T.S, p.ctx.strLit(sel.Sel.Name).S), SInt)
+}
+
+// mutexOp keeps the ghost count of held mutexes: Lock adds one, Unlock takes one away. Mutexes
+// that are not fields of an object are not tracked. (Blocking, fairness and what other goroutines
+// do are outside the model; the count only says which critical section a statement is in.)
+func (p *Proc) mutexOp(ec *ectx, fn *types.Func, recvExpr ast.Expr) {
+	if recvExpr == nil || ec.spec {
+		return
+	}
+	d := int64(0)
+	switch funcKeyOf(fn) {
+	case "sync.(*Mutex).Lock", "sync.(*RWMutex).Lock":
+		d = 1
+	case "sync.(*Mutex).Unlock", "sync.(*RWMutex).Unlock":
+		d = -1
+	default:
+		return
+	}
+	k := p.mutexKey(ec, recvExpr)
+	if k == nil {
+		return
+	}
+	h := p.heapGet(ec.st, "G:$held", ArrSort(SInt, SInt))
+	p.heapSet(ec.st, "G:$held", Store(h, k, Add(Sel(h, k), IntLit(d))))
 }
